@@ -3,5 +3,6 @@
 //! is paired with a compiling twin that differs only in the offending line, so that a witness
 //! which fails to compile for an unrelated reason (renamed API, wrong path) is detected.
 //! Run with `cargo +nightly test --doc --offline` (stable ignores the error code).
+pub mod c01;
 pub mod c19;
 pub mod c20;
